@@ -45,6 +45,25 @@ added = {
  "C36-r3": "chains whose NotBefore and NotAfter vary independently",
  "C37-r3": "chains whose CA certificate carries the same ISD-AS as the AS certificate",
  "C47-r3": "policy options with equal and different weights, heaviest matching nothing",
+ "C05-r4": "external-ingress cases with the hop's ingress rewritten (valid MAC) to 0 / unknown / sibling-owned, delivered over sibling and internal links",
+ "C06-r4": "Peer flag assigned per info field (15 neutral path positions), role of the hop derived from its own info field",
+ "C07-r4": "segments padded to 31/32/33/48/63 hop fields so the upper bits of the 6-bit SegLen and CurrHF are exercised",
+ "C08-r4": "see manifest.d/C08.json (round-4 dimension)",
+ "C09-r4": "see manifest.d/C09.json (round-4 dimension)",
+ "C10-r4": "traceroute requests carrying hop-by-hop / end-to-end extension headers in every layout",
+ "C15-r4": "timed scenarios over own x announced detect multipliers and intervals, silence probed between all candidate detection times",
+ "C21-r4": "full grid of SPI values (type, direction, epoch, reserved bits) instead of a few samples",
+ "C23-r4": "interface-table reloads (10 variants, sequences of 1-3) between extensions; signed MTUs judged",
+ "C24-r4": "every certificate-window case under three process time zones (UTC, +05:30, -08:00)",
+ "C28-r4": "segments re-built with per-entry distinct ExpTime / MTU / peer egress (8 modes); paths compared field by field with a model join",
+ "C30-r4": "AS-local and per-link interface numbering of the worlds; oracle walks the raw path through the topology",
+ "C31-r4": "32-bit range ends of timestamps and lifetimes, clock crossing 2^32 s",
+ "C32-r4": "3-entry core / authoritative lists with removal, replacement, insertion at every position (33-entry policy table)",
+ "C36-r4": "one caching verifier over all signers of a ring, forward and reverse order, must agree with cache-less verdicts",
+ "C37-r4": "hand-built CMS signer infos with every prefix / extension / alteration of the message-digest attribute",
+ "C40-r4": "requester kinds carrying an ISD-AS (SCION peers in local / foreign / twin ASes, other net.Addr types)",
+ "C42-r4": "IPv4 flag x fragment-offset grid",
+ "C48-r4": "rings pre-filled and pre-drained to every fill level / index position before the concurrent phase",
 }
 rows = []
 for d in sorted(glob.glob("/verif/seeded/*/meta.json")):
